@@ -396,6 +396,15 @@ class Explorer:
                             self.visited.add(k)
                         self._note_abs(sched_taken, k[1])
                     default = last if last in runnable else runnable[0]
+                    if i > 3000:
+                        # a run this long is a busy-wait: be fair from here on (round robin);
+                        # if even that does not end it, no call returns - reported as deadlock
+                        default = runnable[(runnable.index(last) + 1) % len(runnable)] \
+                            if last in runnable else runnable[0]
+                    if i > 30000:
+                        outcome = "deadlock"
+                        self.exhaustive = False
+                        break
                     choice = default
                     ample = None
                     if self.use_ample and len(runnable) > 1:
@@ -412,7 +421,7 @@ class Explorer:
                                 break
                     if ample is not None:
                         choice = ample
-                    elif collect and stack is not None:
+                    elif collect and stack is not None and i <= 3000:
                         for alt in runnable:
                             if alt == choice:
                                 continue
